@@ -4,7 +4,8 @@
     [sched_run] is the all-schedules system; [run_quiet] is the executable schedule that the
     correspondence harness compares with the real code to the nanosecond. *)
 From TP Require Import Model.Prelude Extracted Model.Toxics Model.Timed
-     Proofs.StageContract Proofs.LinkInv Proofs.LinkStatic Proofs.C01Proofs.
+     Proofs.StageContract Proofs.LinkInv Proofs.LinkStatic Proofs.C01Proofs
+     Model.Reconf Model.ReconfRun Model.MultiRun Proofs.MultiProofs.
 
 (** delivered ++ in flight ++ not yet read = what the sender wrote, in every reachable state *)
 Theorem C01_safety : forall chain src draws sd sigma l,
@@ -121,3 +122,15 @@ Theorem C01_closure_order_step : forall l a l',
   link_ok l -> static_link l -> closure_inv l -> sched_step l a = Some l' -> closure_inv l'.
 Proof. exact closure_step. Qed.
 Print Assumptions C01_closure_order_step.
+
+(** "independently of all other connections": in the executable runs with several connections of one
+    proxy under a common history of operations (Model/MultiRun.v, compared with the real code per
+    connection to the nanosecond), what happens on connection k is an interleaving of the
+    all-schedules system of that connection alone, whatever the other connections do - they share
+    nothing but the schedule of the operations. Every theorem about [mixed_run] / [sched_run]
+    therefore holds for each connection of such a run. *)
+Theorem C01_independent_of_other_connections : forall fuel horizon m m' k r,
+  mrun_quiet fuel horizon m = Some m' -> nth_error (m_links m) k = Some r ->
+  exists r' sigma, nth_error (m_links m') k = Some r' /\ mixed_run (r_l r) sigma = Some (r_l r').
+Proof. exact mrun_link_is_an_interleaving. Qed.
+Print Assumptions C01_independent_of_other_connections.
